@@ -191,8 +191,8 @@ impl Prop for C14Prop {
         cx.count("string_round_trips");
         // the file variant writes the same document and reads back the same graph (one keying per case is enough)
         if env.keying == 0 {
-            let dir = "/verif/target/scratch";
-            let _ = std::fs::create_dir_all(dir);
+            let dir = format!("{}/target/scratch", rt::verif_dir());
+            let _ = std::fs::create_dir_all(&dir);
             let path = format!("{}/c14-{}-{:x}.graphml", dir, std::process::id(), case.seed);
             // half of the cases write over an existing, longer document at the same path (a second write in a
             // history of writes), the other half to a fresh path
